@@ -37,7 +37,7 @@ impl Engine for TrieEngine {
             "C03" => {
                 p.cases = if quick { 3000 } else { 300_000 };
                 p.rule = "case = operation history (10-450 operations: insert, delete, lookup, set, get_mut write/resize, delete_prefix, checkpoint in both calling orders, rollback, commit, freeze/thaw, store+reload) over an adversarial key space, judged against a BTreeMap shadow model at every call and by full read-back (lookups incl. near-miss keys, prefix iteration, persistent lookup/iteration, structure walker) at quiescent points; evaluations = histories; distinct_nontrivial = distinct histories with >= 1 delete of an existing key, >= 1 rollback or freeze, and a non-empty final map".into();
-                p.floors = vec![("histories.nontrivial".into(), 500), ("ops.rollback".into(), 500), ("ops.freeze".into(), 200), ("ops.reload".into(), 100), ("ops.delete_prefix".into(), 500), ("ops.get_mut".into(), 500), ("ops.checkpoint_unmaterialised".into(), 200), ("ops.freeze_directly_after_rollback".into(), 100), ("ops.write_through_iterator".into(), 300), ("reads.compared".into(), 100_000)];
+                p.floors = vec![("histories.nontrivial".into(), 500), ("ops.rollback".into(), 500), ("ops.freeze".into(), 200), ("ops.reload".into(), 100), ("ops.delete_prefix".into(), 500), ("ops.get_mut".into(), 500), ("ops.checkpoint_unmaterialised".into(), 200), ("ops.freeze_directly_after_rollback".into(), 100), ("ops.write_through_iterator".into(), 300), ("histories.huge_keys".into(), 50), ("reads.compared".into(), 100_000)];
                 p.san = san((400, 20_000), (60, 3000));
             }
             "C04" => {
@@ -64,6 +64,7 @@ impl Engine for TrieEngine {
                     ("interrupt.changed".into(), 300),
                     ("interrupt.rolled_back".into(), 300),
                     ("interrupt.unchanged".into(), 300),
+                    ("histories.huge_keys".into(), 100),
                 ];
                 p.san = vec![SanTier { name: "asan", shards: 16, cases: if quick { 300 } else { 20_000 }, timeout_s: if quick { 1200 } else { 2 * 3600 }, budget_s: if quick { 40 } else { 600 } }];
             }
